@@ -545,13 +545,14 @@ def generate(rng, profile):
                 rigid_only = profile == 'rigid'
                 shapes = ['same', 'same', 'same-label', 'label-only', 'comment-only', 'nolabel']
                 if not rigid_only:
-                    shapes += ['resize', 'before', 'after', 'replace+after', 'before+after', 'overwrite', 'remove', 'multi-before'] + (['after-label'] if label_inserts else [])
-                if any(x in ('overwrite', 'remove') for x in line_shapes):
+                    shapes += ['resize', 'before', 'after', 'replace+after', 'before+after', 'overwrite', 'remove', 'multi-before',
+                               'before+overwrite', 'before+overwrite'] + (['after-label'] if label_inserts else [])
+                if any(x in ('overwrite', 'remove', 'before+overwrite') for x in line_shapes):
                     # an overwrite into a range that another directive of the same line removes is contradictory input
-                    shapes = [x for x in shapes if x not in ('overwrite', 'remove')]
+                    shapes = [x for x in shapes if x not in ('overwrite', 'remove', 'before+overwrite')]
                 if ln.first and not label_inserts:
                     # an entry that begins with an inserted instruction gets its -c label on an instruction without address
-                    shapes = [x for x in shapes if x not in ('before', 'multi-before', 'before+after')]
+                    shapes = [x for x in shapes if x not in ('before', 'multi-before', 'before+after', 'before+overwrite')]
                 shape = rng.choice(shapes)
                 line_shapes.append(shape)
                 dirs = []
@@ -645,6 +646,44 @@ def generate(rng, profile):
                         fl.reserved = True
                     rigid = False
                     g.features.add('overwrite')
+                elif shape == 'before+overwrite':
+                    # '>' and '|' in one directive group: P bytes are prepended, then S bytes overwrite the skool range
+                    # [A, A+S) - NOT shifted by P. The end of that range is placed exactly on, one byte short of and one
+                    # byte beyond a boundary of the following instructions, and the lines up to the end of the window
+                    # [A+S, A+S+P) (instructions that must survive) stay plain.
+                    follow = []
+                    j = i + 1
+                    while j < len(lines) and len(follow) < 6:
+                        follow.append(lines[j])
+                        j += 1
+                    if not follow:
+                        continue
+                    bounds = [ln.op.size]
+                    for fl in follow:
+                        bounds.append(bounds[-1] + fl.op.size)
+                    room = bounds[-1]
+                    k = rng.randrange(0, max(1, len(bounds) - 2))          # leave lines after the overwritten range
+                    total = bounds[k] + rng.choice([0, -1, 1])
+                    total = max(1, min(total, room))
+                    pre = []
+                    for _ in range(rng.choice([1, 1, 2])):
+                        o = g.any_op()
+                        pre.append(o)
+                        ops.append(o)
+                        dirs.append('>' + o.text)
+                    parts = [total]
+                    if total >= 2 and rng.random() < 0.4:
+                        a = rng.randint(1, total - 1)
+                        parts = [a, total - a]
+                    for sz in parts:
+                        o = g.op_of_size(sz)
+                        ops.append(o)
+                        dirs.append('|' + o.text)
+                    skip_until = max(skip_until, i + len(follow))
+                    for fl in follow:
+                        fl.reserved = True
+                    rigid = False
+                    g.features.add('before+overwrite:' + ('exact' if total in bounds else ('short' if total + 1 in bounds else ('long' if total - 1 in bounds else 'inside'))))
                 elif shape == 'remove':
                     # remove one or two plain lines that follow (never the first line of an entry)
                     if i + 1 >= len(lines):
